@@ -3,7 +3,7 @@ SPEC = dict(
     title="Values round-trip through the HTTP API without loss",
     pkg="./http", files=["http/c30_verif_test.go"],
     rule="corpus of 30 number literals, 43 strings, null/bool/array/object values in all 4 parameter forms, every ordered pair of storage classes (first-row effect on "
-         "expression columns), then 220 (quick) / 20000 (thorough) random parameter lists of 1-4 values, each stored in an untyped, INTEGER, REAL, TEXT, BLOB column and read "
+         "expression columns), then 220 (quick) / 6000 (thorough) random parameter lists of 1-4 values, each stored in an untyped, INTEGER, REAL, TEXT, BLOB column and read "
          "back (plus an expression) in 4 result forms (standard/associative x base64/byte-array), locally or as a forwarded (protobuf) result; a list is non-trivial when it "
          "has an integer beyond 2^53 or at the int64 limits, a float at the range limits or around 2^63, a blob that is empty or not valid UTF-8, or a string containing "
          "x/X and a quote (hex-looking); distinct by request body + form",
